@@ -8,7 +8,8 @@ TRACE_MODULE = "PipelineTrace"
 TRACE_CFG = "PipelineTrace.cfg"
 RULE = ("random exact-domain UFOs (3-7 glyphs, nested / mirrored / sheared / scaled components, line + cubic + quadratic "
         "segments, k/4 coordinates and advances with .5 ties of both signs) x roundTolerance {None, 0, 0.25, 0.5} x cffVersion "
-        "{1, 2} x {defcon, ufoLib2} (one case in six with a skipExportGlyphs list); compiled with compileOTF, saved, reloaded, drawn with RecordingPen; non-trivial = the "
+        "{1, 2} x {defcon, ufoLib2} (one case in six with a skipExportGlyphs list, one in seven a colour font whose layer "
+        "re-draws a composite with deeper nesting); compiled with compileOTF, saved, reloaded, drawn with RecordingPen; non-trivial = the "
         "font has at least one composite glyph; distinct by source digest + options; plus (one case in five) families of "
         "2-3 compatible masters compiled with compileInterpolatableOTFsFromDS in which a composite glyph (incl. mirrored and "
         "nested components) is drawn as plain contours in some masters and composed in the others -- every master is judged "
@@ -51,9 +52,26 @@ def cases(tier, seed):
                 kwargs["skipExportGlyphs"] = skip
             else:
                 ufo_lib = {"public.skipExportGlyphs": skip}
-        out.append({"cid": f"c01-{seed}-{k}", "lib": rng.choice(["ufoLib2", "defcon"]), "flavor": "cff",
-                    "ufo": {"glyphs": glyphs, "info": {"unitsPerEm": 1000, "ascender": 800, "descender": -200}, "lib": ufo_lib},
-                    "kwargs": kwargs})
+        layers = None
+        if k % 7 == 3:
+            # a colour font: a layer holds another drawing of a composite glyph, nested more deeply than the default-layer one;
+            # the exploded copies live in the working glyph set under keys that differ from their names
+            cands = [n_ for n_, g in glyphs.items() if g["comps"] and all(not glyphs[c["b"]]["comps"] for c in g["comps"])]
+            if cands:
+                from ..absfont import MS, PS
+
+                g_ = rng.choice(cands)
+                layers = {"color1": {
+                    g_: {"cs": [], "comps": [{"b": "lx", "m": [MS, 0, 0, MS], "d": [10 * PS, 0]}], "anchors": [], "w": glyphs[g_]["w"], "h": 0, "u": []},
+                    "lx": {"cs": [], "comps": [{"b": "ly", "m": [-MS, 0, 0, MS], "d": [200 * PS, 0]}], "anchors": [], "w": 0, "h": 0, "u": []},
+                    "ly": {"cs": [[[0, 0, "line"], [100 * PS, 0, "line"], [50 * PS, 80 * PS, "line"]]], "comps": [], "anchors": [], "w": 0, "h": 0, "u": []}}}
+                ufo_lib = dict(ufo_lib)
+                ufo_lib["com.github.googlei18n.ufo2ft.colorPalettes"] = [[[1.0, 0.0, 0.0, 1.0], [0.0, 0.5, 1.0, 1.0]]]
+                ufo_lib["com.github.googlei18n.ufo2ft.colorLayerMapping"] = [["color1", 1]]
+        ufo_ = {"glyphs": glyphs, "info": {"unitsPerEm": 1000, "ascender": 800, "descender": -200}, "lib": ufo_lib}
+        if layers:
+            ufo_["layers"] = layers
+        out.append({"cid": f"c01-{seed}-{k}", "lib": rng.choice(["ufoLib2", "defcon"]), "flavor": "cff", "ufo": ufo_, "kwargs": kwargs})
     return out
 
 
@@ -83,7 +101,10 @@ def _interp_family(rng):
 def execute(case):
     if case.get("interp"):
         return compile_exec.interp_cff_compile(case)
-    return [compile_exec.static_compile(case)]
+    rec = compile_exec.static_compile(case)
+    if case["ufo"].get("layers") and "opts" in rec:
+        rec["opts"]["srcExempt"] = True      # (the colour-layer filter's lib write is finding F-C07-2, decided by C07)
+    return [rec]
 
 
 def preclassify(rec, rep):
@@ -94,3 +115,4 @@ def preclassify(rec, rep):
 
 def nontrivial(rec):
     return any(g["comps"] for g in rec["src"].values())
+
